@@ -102,3 +102,9 @@ Definition kf_nonsquare_encase (m : module) : bool :=
                     | Some t => match wgsl_lty (S (length (types m))) m t with Some l => has_nonsquare l | None => false end
                     | None => false
                     end) (emitted_structs m).
+
+(** premise (evaluated per case): a host-shareable struct has no @builtin members (those are dropped from the Rust
+    struct, so the Rust struct could not mirror the WGSL layout) *)
+Definition host_no_builtins (m : module) : bool :=
+  forallb (fun e => negb (host_shareable_b m (fst (fst e)))
+                    || forallb (fun mem => negb (is_builtin (m_binding mem))) (snd e)) (emitted_structs m).
